@@ -12,7 +12,12 @@ fn keyset(seed: u64) -> (Vec<u8>, Vec<u8>, Vec<u8>, Vec<u8>) {
     let mut r = Rng::new(seed ^ 0xC01);
     (r.bytes(32), r.bytes(32), r.bytes(32), r.bytes(32)) // sender, recipient, ephemeral, payload key
 }
-pub fn pub_of(skb: &[u8]) -> Vec<u8> { let p = imp::sk(skb).to_public().expect("public key").as_bytes().to_vec(); imp::learn_keypair(skb, &p); p }
+pub fn pub_of(skb: &[u8]) -> Vec<u8> {
+    let p = match imp::sk(skb).to_public() { Ok(p) => p.as_bytes().to_vec(), Err(_) => {
+        // every 32-byte string is a private key and has a public key (RFC 7748); say so, and go on with scalar * base point
+        imp::note_setup_failure("every-private-key-has-a-public-key", format!("PrivateKey::to_public() failed for the private key {}", hex(skb)));
+        let mut base = vec![0u8; 32]; base[0] = 9; kestrel_crypto::x25519(skb, &base).unwrap_or_else(|_| vec![0u8; 32]) } };
+    imp::learn_keypair(skb, &p); p }
 
 impl Prop for C01 {
     fn id(&self) -> &'static str { "C01" }
